@@ -91,6 +91,11 @@ func (rotEngine) generate(property string, seed int64, index int, tier string) *
 		origin += "+torn"
 	}
 	n := r.Pick2([]int{2, 3, 4, 8, 16, len(text) / 2, len(text) + 1, r.Range(1, len(text)+2)})
+	if r.Chance(1, 60) {
+		// a large file (70-300 KiB) and a realistic number of workers
+		text, origin = largeDoc(r, 130) // (whole commands on it: klog needs seconds for 300 KiB, slow is not hung)
+		n = r.Pick2([]int{2, 4, 8, 16})
+	}
 	if n < 1 {
 		n = 1
 	}
@@ -109,6 +114,9 @@ func (rotEngine) generate(property string, seed int64, index int, tier string) *
 	if r.Chance(1, 3) {
 		// one more invocation with randomly drawn flags, values and spellings
 		rc.Cmds = append(rc.Cmds, genEvalCommand(r))
+	}
+	if strings.HasPrefix(origin, "large:") {
+		rc.Cmds = rc.Cmds[:1]
 	}
 	if r.Chance(1, 5) {
 		// a config file: other rendering and evaluation paths (colour schemes, formats, suppressed warnings)
